@@ -97,39 +97,62 @@ Section Bin.
   Lemma opaque_toks : forall e s, render [Opaque e s] = s.
   Proof. intros e s. cbn [render render_piece]. apply sapp_nil_r. Qed.
 
-  Ltac enter e Hb :=
+  Ltac enter Hfsl :=
     rewrite fmtd_unfold; unfold impl_doc;
     match goal with |- context [if ?b then _ else _] => destruct b end;
-    [rewrite opaque_toks, (fsl_pt e Hb); reflexivity|].
+    [rewrite opaque_toks, Hfsl; reflexivity|].
+
+  (* nodes that format_multiline always hands to expr_to_source (no comment inside) *)
+  Definition leafkind (e : expr) : bool :=
+    match e with
+    | ENum _ | EStr _ | EBool _ | ENull | EId _ | EInRef _ | EBuiltin _
+    | EAccess _ _ | EDot _ _ | EUn _ _ | EFact _ | ESpread _ => true
+    | _ => false
+    end.
+  Lemma step_leaf : forall e, leafkind e = true -> tok_ok O e = true ->
+    forall i, toks (render (fd e i)) = toks (pt e).
+  Proof.
+    intros e Hl Hk i. destruct (node_of e Hk) as [_ [_ Hcc]].
+    assert (Hfsl : fsl O e = pt e) by (destruct e; try discriminate; reflexivity).
+    destruct e; try discriminate; enter Hfsl; unfold multiline_doc; rewrite ?Hcc, ?andb_false_r;
+      rewrite opaque_toks; reflexivity.
+  Qed.
 
   Definition Sbin (e : expr) : Prop := binfam e = true -> tok_ok O e = true ->
     forall i, toks (render (fd e i)) = toks (pt e).
 
-  Ltac leaf :=
-    match goal with |- Sbin ?e =>
-      let Hb := fresh in let Hk := fresh in let i := fresh in let Hcc := fresh in
-      intros Hb Hk i; destruct (node_of e Hk) as [_ [_ Hcc]];
-      enter e Hb; unfold multiline_doc; rewrite ?Hcc, ?andb_false_r; rewrite opaque_toks; reflexivity
-    end.
+  Ltac leaf := let Hb := fresh in let Hk := fresh in intros Hb Hk; apply step_leaf; [reflexivity|exact Hk].
 
-  Lemma step_assign : forall x e, Sbin e -> Sbin (EAssign x e).
+  (* the steps, with the children's equalities as hypotheses *)
+  Lemma step_assign' : forall x e, fsl O e = pt e -> tok_ok O (EAssign x e) = true ->
+    (forall i, toks (render (fd e i)) = toks (pt e)) ->
+    forall i, toks (render (fd (EAssign x e) i)) = toks (pt (EAssign x e)).
   Proof.
-    intros x e IHe Hb Hk i. pose proof Hk as Hk'. cbn [tok_ok] in Hk'. apply andb_prop in Hk'. destruct Hk' as [_ Hk'].
-    apply andb_prop in Hk'. destruct Hk' as [Hx Hv]. pose proof Hb as Hbv. cbn [binfam] in Hbv.
-    enter (EAssign x e) Hb. unfold multiline_doc.
+    intros x e Hfv Hk IHe i. pose proof Hk as Hk'. cbn [tok_ok] in Hk'. apply andb_prop in Hk'. destruct Hk' as [_ Hk'].
+    apply andb_prop in Hk'. destruct Hk' as [Hx Hv].
+    assert (Hfsl : fsl O (EAssign x e) = pt (EAssign x e)) by (cbn [fsl print_text]; now rewrite Hfv).
+    enter Hfsl. unfold multiline_doc.
     destruct (kw_suffix x " = " Hx eq_refl eq_refl) as [_ [A2 _]].
     change (render (Code (x +++ " = ") :: fd e i)) with ((x +++ " = ") +++ render (fd e i)).
-    rewrite (toks_app_closed _ _ A2), (IHe Hbv Hv i), <- (toks_app_closed _ _ A2).
+    rewrite (toks_app_closed _ _ A2), (IHe i), <- (toks_app_closed _ _ A2).
     cbn [print_text]. now rewrite sapp_assoc.
   Qed.
-
-  Lemma step_bin : forall o e1 e2, Sbin e1 -> Sbin e2 -> Sbin (EBin o e1 e2).
+  Lemma step_assign : forall x e, Sbin e -> Sbin (EAssign x e).
   Proof.
-    intros o e1 e2 IHe1 IHe2 Hb Hk i.
+    intros x e IHe Hb Hk. pose proof Hk as Hk'. cbn [tok_ok] in Hk'. apply andb_prop in Hk'. destruct Hk' as [_ Hk'].
+    apply andb_prop in Hk'. destruct Hk' as [Hx Hv]. pose proof Hb as Hbv. cbn [binfam] in Hbv.
+    apply step_assign'; [exact (fsl_pt e Hbv)|exact Hk|exact (IHe Hbv Hv)].
+  Qed.
+
+  Lemma step_bin' : forall o e1 e2, tok_ok O (EBin o e1 e2) = true ->
+    (forall i, toks (render (fd e1 i)) = toks (pt e1)) -> (forall i, toks (render (fd e2 i)) = toks (pt e2)) ->
+    forall i, toks (render (fd (EBin o e1 e2) i)) = toks (pt (EBin o e1 e2)).
+  Proof.
+    intros o e1 e2 Hk IHe1 IHe2 i.
     pose proof Hk as Hk'. cbn [tok_ok] in Hk'. apply andb_prop in Hk'. destruct Hk' as [_ Hk'].
-    apply andb_prop in Hk'. destruct Hk' as [H1 H2]. pose proof Hb as Hb'. cbn [binfam] in Hb'. apply andb_prop in Hb'.
-    destruct Hb' as [B1 B2].
-    enter (EBin o e1 e2) Hb. unfold multiline_doc, binop_doc.
+    apply andb_prop in Hk'. destruct Hk' as [H1 H2].
+    assert (Hfsl : fsl O (EBin o e1 e2) = pt (EBin o e1 e2)) by reflexivity.
+    enter Hfsl. unfold multiline_doc, binop_doc.
     destruct (node_of e1 H1) as [_ [P1 _]]. destruct (node_of e2 H2) as [_ [P2 _]].
     change (o_needs_parens O o e1 true) with (pL pol o e1).
     change (o_needs_parens O o e2 false) with (pR pol o e2).
@@ -141,10 +164,10 @@ Section Bin.
     assert (HL : forall j, toks (render (wrap_parens (pL pol o e1) (fd e1 j))) = wrapT (pL pol o e1) (toks (pt e1))
                            /\ ends_code (render (wrap_parens (pL pol o e1) (fd e1 j))) = true).
     { intro j. rewrite render_wrap. destruct (layout_toks O w e1 j H1) as [_ E].
-      destruct (paren_facts (pL pol o e1) _ E) as [T E']. rewrite T, (IHe1 B1 H1 j). auto. }
+      destruct (paren_facts (pL pol o e1) _ E) as [T E']. rewrite T, (IHe1 j). auto. }
     assert (HR : forall j, toks (render (wrap_parens (pR pol o e2) (fd e2 j))) = wrapT (pR pol o e2) (toks (pt e2))).
     { intro j. rewrite render_wrap. destruct (layout_toks O w e2 j H2) as [_ E].
-      destruct (paren_facts (pR pol o e2) _ E) as [T _]. rewrite T, (IHe2 B2 H2 j). reflexivity. }
+      destruct (paren_facts (pR pol o e2) _ E) as [T _]. rewrite T, (IHe2 j). reflexivity. }
     destruct (HL i) as [TL EL].
     assert (MID : forall R, toks (render (wrap_parens (pL pol o e1) (fd e1 i) ++
                                    [Code (" " +++ binary_op_str o +++ " ")] ++ R))
@@ -166,6 +189,14 @@ Section Bin.
         -- rewrite MID, HR. reflexivity.
       * rewrite BRK, HR. reflexivity.
     + rewrite BRK, HR. reflexivity.
+  Qed.
+  Lemma step_bin : forall o e1 e2, Sbin e1 -> Sbin e2 -> Sbin (EBin o e1 e2).
+  Proof.
+    intros o e1 e2 IHe1 IHe2 Hb Hk.
+    pose proof Hk as Hk'. cbn [tok_ok] in Hk'. apply andb_prop in Hk'. destruct Hk' as [_ Hk'].
+    apply andb_prop in Hk'. destruct Hk' as [H1 H2]. pose proof Hb as Hb'. cbn [binfam] in Hb'. apply andb_prop in Hb'.
+    destruct Hb' as [B1 B2].
+    apply step_bin'; [exact Hk|exact (IHe1 B1 H1)|exact (IHe2 B2 H2)].
   Qed.
 
   (* ---------------------------------------------------------------- the conditional family *)
@@ -226,14 +257,14 @@ Section Bin.
   Lemma S_of_P : forall e, Pbin e -> Sbin e.
   Proof. intros e HP Hb Hk. exact (proj1 (HP Hb Hk)). Qed.
 
-  Lemma step_cond : forall c t f, Pbin c -> Pbin t -> Pbin f -> Pbin (ECond c t f).
+  Lemma step_cond' : forall c t f, tok_ok O (ECond c t f) = true ->
+    (forall i, toks (render (fd c i)) = toks (pt c)) -> (forall i, toks (render (fd t i)) = toks (pt t)) -> CH f ->
+    (forall i, toks (render (fd (ECond c t f) i)) = toks (pt (ECond c t f))) /\ CH (ECond c t f).
   Proof.
-    intros c t f Pc Pt Pf Hb Hk.
+    intros c t f Hk Sc St Cf.
     pose proof Hk as Hk'. cbn [tok_ok] in Hk'. apply andb_prop in Hk'. destruct Hk' as [_ Hk'].
     apply andb_prop in Hk'. destruct Hk' as [Hk' K3]. apply andb_prop in Hk'. destruct Hk' as [K1 K2].
-    pose proof Hb as Hb'. cbn [binfam] in Hb'. apply andb_prop in Hb'. destruct Hb' as [Hb' B3].
-    apply andb_prop in Hb'. destruct Hb' as [B1 B2].
-    destruct (Pc B1 K1) as [Sc _]. destruct (Pt B2 K2) as [St _]. destruct (Pf B3 K3) as [_ Cf].
+    assert (Hfsl : fsl O (ECond c t f) = pt (ECond c t f)) by reflexivity.
     destruct (node_of c K1) as [_ [E1 _]]. destruct (node_of t K2) as [_ [E2 _]].
     assert (HC : forall j, flat_map piece_toks (fd c j) = toks (pt c))
       by (intro j; rewrite (pieces_toks _ _ K1); apply Sc).
@@ -244,12 +275,22 @@ Section Bin.
       match goal with |- context [if ?c then _ else _] => destruct c end;
         pcs Hc Ht; rewrite (Cf _ _ _ _ i HC HT), (pt_cond_toks c t f E1 E2); reflexivity. }
     split; [|exact CHself].
-    intro i. enter (ECond c t f) Hb. unfold multiline_doc.
+    intro i. enter Hfsl. unfold multiline_doc.
     assert (Hd : dok true (cond_doc w fd (fd c) (fd t) f i) = true).
     { apply dok_cond_doc with (G := Gd O w); [exact (Hrec_fd O w)
       |exact (proj1 (dok_fmtd_all O w c K1))|exact (proj1 (dok_fmtd_all O w t K2))
       |exact (proj2 (dok_fmtd_all O w f K3))]. }
     rewrite (proj1 (doc_toks _ Hd)), (Cf _ _ _ _ i HC HT), (pt_cond_toks c t f E1 E2). reflexivity.
+  Qed.
+  Lemma step_cond : forall c t f, Pbin c -> Pbin t -> Pbin f -> Pbin (ECond c t f).
+  Proof.
+    intros c t f Pc Pt Pf Hb Hk.
+    pose proof Hk as Hk'. cbn [tok_ok] in Hk'. apply andb_prop in Hk'. destruct Hk' as [_ Hk'].
+    apply andb_prop in Hk'. destruct Hk' as [Hk' K3]. apply andb_prop in Hk'. destruct Hk' as [K1 K2].
+    pose proof Hb as Hb'. cbn [binfam] in Hb'. apply andb_prop in Hb'. destruct Hb' as [Hb' B3].
+    apply andb_prop in Hb'. destruct Hb' as [B1 B2].
+    destruct (Pc B1 K1) as [Sc _]. destruct (Pt B2 K2) as [St _]. destruct (Pf B3 K3) as [_ Cf].
+    exact (step_cond' c t f Hk Sc St Cf).
   Qed.
 
   Theorem binfam_all : forall e, Pbin e.
